@@ -220,6 +220,26 @@ impl CacheRead {
                     Some(d) => d,
                     None => bail!("Output file without a parent directory!"),
                 };
+                // A device or FIFO at the output path (`-o /dev/null`) is written
+                // to, as the compiler does; renaming a file over it would replace
+                // the device itself.
+                #[cfg(unix)]
+                {
+                    use std::os::unix::fs::FileTypeExt;
+                    let special = std::fs::metadata(&path)
+                        .map(|m| {
+                            let t = m.file_type();
+                            t.is_char_device() || t.is_block_device() || t.is_fifo() || t.is_socket()
+                        })
+                        .unwrap_or(false);
+                    if special {
+                        if !optional || self.has_object(&key) {
+                            let mut file = std::fs::OpenOptions::new().write(true).open(&path)?;
+                            self.get_object(&key, &mut file)?;
+                        }
+                        continue;
+                    }
+                }
                 // Write the cache entry to a tempfile and then atomically
                 // move it to its final location so that other rustc invocations
                 // happening in parallel don't see a partially-written file.
